@@ -24,16 +24,21 @@ func (s *Server) processQueryLogsAndStats(dctx *dnsContext) (rc resultCode) {
 	processingTime := time.Since(dctx.startTime)
 
 	ip := pctx.Addr.Addr().AsSlice()
+
+	// Use the real address to look the client up, since persistent clients are
+	// identified by their real addresses, and only record the anonymized one.
+	realIPStr := net.IP(ip).String()
+
 	s.anonymizer.Load()(ip)
 	ipStr := net.IP(ip).String()
 
 	log.Debug("dnsforward: client ip for stats and querylog: %s", ipStr)
 
-	ids := []string{ipStr}
+	ids := []string{realIPStr}
 	if dctx.clientID != "" {
 		// Use the ClientID first because it has a higher priority.  Filters
 		// have the same priority, see applyAdditionalFiltering.
-		ids = []string{dctx.clientID, ipStr}
+		ids = []string{dctx.clientID, realIPStr}
 	}
 
 	qt, cl := q.Qtype, q.Qclass
